@@ -723,6 +723,16 @@ impl FromStr for FormatSpec {
     }
 }
 
+/// An index in a field name is a run of decimal digits; unlike `str::parse` a sign is not accepted
+/// (`"{+1}"` looks up the key `"+1"`).
+fn parse_decimal_index(text: &str) -> Option<usize> {
+    if text.bytes().all(|b| b.is_ascii_digit()) {
+        text.parse::<usize>().ok()
+    } else {
+        None
+    }
+}
+
 #[derive(Debug, PartialEq)]
 pub enum FieldNamePart {
     Attribute(String),
@@ -754,7 +764,7 @@ impl FieldNamePart {
                         if ch == ']' {
                             return if index.is_empty() {
                                 Err(FormatParseError::EmptyAttribute)
-                            } else if let Ok(index) = index.parse::<usize>() {
+                            } else if let Some(index) = parse_decimal_index(&index) {
                                 Ok(FieldNamePart::Index(index))
                             } else {
                                 Ok(FieldNamePart::StringIndex(index))
@@ -793,7 +803,7 @@ impl FieldName {
 
         let field_type = if first.is_empty() {
             FieldType::Auto
-        } else if let Ok(index) = first.parse::<usize>() {
+        } else if let Some(index) = parse_decimal_index(&first) {
             FieldType::Index(index)
         } else {
             FieldType::Keyword(first)
